@@ -15,6 +15,7 @@ from __future__ import annotations
 import ast
 
 from ..frontend import ClassInfo, Func, attr_chain, const_value, src, walk_no_nested
+from ..dataflow import get_defuse
 
 F = "F"
 U = "U"
@@ -647,6 +648,9 @@ class _FA:
                 return FRESH
             if m in VIEW_METHODS:
                 return O(base.obj, base.elem, cls=base.cls)
+            if m == "astype" and any(k.arg == "copy" and isinstance(k.value, ast.Constant) and k.value.value is False for k in kws):
+                # astype(..., copy=False) hands back the very same array whenever the dtype already matches
+                return O(base.obj | {F}, base.elem, cls=base.cls)
             if m in FRESH_METHODS:
                 return FRESH
             if m == "fit" or m in ("transform", "predict", "acc_stats", "enroll", "score", "project"):
@@ -740,3 +744,86 @@ def _load(t):
     t2 = _c.copy(t)
     t2.ctx = ast.Load()
     return t2
+
+
+def check_inplace_views(P, R, own, key, rule="ALIAS.inplace-view"):
+    """No array is modified in place while a view of it, taken earlier, is still read afterwards.
+
+    For every in-place statement on a local array A (A op= ..., A[...] = ..., out=A): a local B defined before it from A by a view
+    (A[...], A.T, reshape/ravel/..., or a call into the package whose result may be its argument - OWN return summary) and read on
+    some path after it would silently change its value."""
+    f = P.func(key)
+    R.analysed(f)
+    du = get_defuse(f, P)
+    n = 0
+
+    def view_of(expr, st, depth=0):
+        """Names of locals this expression may be a view of."""
+        out = set()
+        e = expr
+        if isinstance(e, ast.Name):
+            out.add(e.id)
+            if depth < 3:
+                for d in du.reaching(st, e.id):
+                    if d.how == "assign" and d.value is not None:
+                        out |= view_of(d.value, d.stmt, depth + 1)
+            return out
+        if isinstance(e, ast.Subscript):
+            # basic slicing / integer indexing gives a view; a mask or index array a copy
+            idx = e.slice.elts if isinstance(e.slice, ast.Tuple) else [e.slice]
+            basic = all(isinstance(i, (ast.Slice, ast.Constant)) or (isinstance(i, ast.UnaryOp) and isinstance(i.operand, ast.Constant)) or (isinstance(i, ast.Name) and not any(dd.value is not None and isinstance(dd.value, ast.Compare) for dd in du.reaching(st, i.id))) for i in idx)
+            return view_of(e.value, st, depth) if basic else set()
+        if isinstance(e, ast.Attribute) and e.attr in ("T", "real"):
+            return view_of(e.value, st, depth)
+        if isinstance(e, ast.IfExp):
+            return view_of(e.body, st, depth) | view_of(e.orelse, st, depth)
+        if isinstance(e, ast.Call):
+            fn = e.func.attr if isinstance(e.func, ast.Attribute) else (e.func.id if isinstance(e.func, ast.Name) else None)
+            if fn in VIEW_METHODS and isinstance(e.func, ast.Attribute) and not (isinstance(e.func.value, ast.Name) and e.func.value.id in ("np", "numpy", "da")):
+                return view_of(e.func.value, st, depth)
+            if fn in VIEW_FUNCS and e.args:
+                return view_of(e.args[0], st, depth)
+            tg = [t[1] for t in P.resolve_callee(e.func, f) if t[0] == "repo"]
+            for callee in tg:
+                sm = own.sums.get(callee.key)
+                if sm is None or sm.ret is None:
+                    continue
+                b = P.bind_args(callee, e.args, e.keywords)
+                for o in sm.ret.all_origins():
+                    if isinstance(o, tuple) and o[0] == "P" and o[1] in b:
+                        out |= view_of(b[o[1]], st, depth + 1)
+        return out
+
+    inplace = []
+    for st in du.cfg.nodes():
+        tgt = None
+        if isinstance(st, ast.AugAssign):
+            tgt = st.target
+        elif isinstance(st, ast.Assign) and len(st.targets) == 1 and isinstance(st.targets[0], ast.Subscript):
+            tgt = st.targets[0]
+        base = tgt
+        while isinstance(base, ast.Subscript):
+            base = base.value
+        if isinstance(base, ast.Name) and tgt is not None:
+            inplace.append((st, base.id))
+        for c in (x for x in ast.walk(st) if isinstance(st, ast.stmt) and isinstance(x, ast.Call)):
+            for kw in c.keywords:
+                if kw.arg == "out" and isinstance(kw.value, ast.Name):
+                    inplace.append((st, kw.value.id))
+    for st, a in inplace:
+        n += 1
+        bad = None
+        for other in du.cfg.nodes():
+            if other is st or not isinstance(other, ast.stmt):
+                continue
+            for nm in [x for x in ast.walk(other) if isinstance(x, ast.Name) and isinstance(x.ctx, ast.Load) and x.id != a]:
+                rd = du.reaching(other, nm.id)
+                for d in rd:
+                    if d.value is None or d.how not in ("assign", "unpack") or d.stmt is st:
+                        continue
+                    # B was defined before the in-place statement, from A, and `other` reads it after the statement
+                    if a in view_of(d.value, d.stmt) - {nm.id} and du.cfg.reach_avoiding(d.stmt, st) and du.cfg.reach_avoiding(st, other, {d.stmt}):
+                        # the in-place statement itself reading B (A -= B[None]) is the hazard's first half; a later read is the second
+                        bad = (nm.id, d.stmt, other)
+        R.check(bad is None, rule, key, src(st)[:60], f"no earlier view of `{a}` is read afterwards", (f"`{bad[0]}` (defined by `{src(bad[1])[:50]}`) may be a view of `{a}`; `{src(st)[:40]}` changes `{a}` in place and `{src(bad[2])[:50]}` reads `{bad[0]}` afterwards: it no longer holds the value it was computed as") if bad else "", st.lineno)
+    return n
